@@ -35,6 +35,8 @@ type s3hCase struct {
 	allEtags []string
 	lastSize map[string]int64
 	made     map[string]bool
+	// routing observer of the "route" stack (s3hist_routing.go); nil on every other stack
+	rt *s3hRoute
 }
 
 func (c *s3hCase) noteEtag(b, k, e string, size int64) {
@@ -289,6 +291,12 @@ func runS3Hist(args []string) {
 	ctx := context.Background()
 
 	directed := s3hDirected()
+	nRoute := 0 // mode "routing" (C14): the routing histories come first and run on the "route" stack
+	if *mode == "routing" {
+		rd := s3hRouteDirected()
+		nRoute = len(rd)
+		directed = append(rd, directed...)
+	}
 	// one multi-part "parts" history per stack of the rotation (compressible bodies above the
 	// compression threshold, appends, multipart, server-side part copies with tail ranges)
 	rotation := []string{*stack}
@@ -318,11 +326,18 @@ func runS3Hist(args []string) {
 		if k >= nPlain && k < len(directed) { // the parts history of stack number k-nPlain
 			sname = rotation[k-nPlain]
 		}
+		if k < nRoute {
+			sname = "route"
+		}
 		stk := newS3hStack(dir, sname)
 		c := &s3hCase{ctx: ctx, st: stk.Storage, out: out, vids: map[string]int{}, bnams: []string{"b0", "b1"},
 			lastEtag: map[string]string{}, lastSize: map[string]int64{}, made: map[string]bool{}}
+		c.rt = s3hRoutes[stk]
 		out.Case(k, seed)
 		out.Line("cfg stack=%s mode=%s", strings.ReplaceAll(sname, " ", "+"), *mode)
+		if c.rt != nil {
+			c.rt.printCfg(c)
+		}
 		func() {
 			defer func() {
 				if r := recover(); r != nil {
@@ -336,6 +351,13 @@ func runS3Hist(args []string) {
 			} else {
 				g := &s3hGen{r: verifx.NewRng(seed), c: c, mode: *mode, withPartCopy: true}
 				for i := 0; i < *nops; i++ {
+					if c.rt != nil { // routing histories: remaps / collector passes in between, dedup-heavy bodies
+						if l := s3hRouteMaybeRop(g); l != "" {
+							c.exec(l)
+						}
+						c.exec(s3hRouteTweak(g, g.next()))
+						continue
+					}
 					c.exec(g.next())
 				}
 				// closing sweep: listings and every version
@@ -345,6 +367,7 @@ func runS3Hist(args []string) {
 			}
 		}()
 		out.End()
+		delete(s3hRoutes, stk)
 		stk.Close()
 	}
 	out.Flush()
@@ -440,6 +463,12 @@ func imArg(tok string) *string {
 // exec runs one op line ("op <name> …") on the implementation and prints it followed by "res …".
 func (c *s3hCase) exec(line string) {
 	c.out.Line("%s", line)
+	if c.rt != nil {
+		if c.rt.rop(c, line) {
+			return
+		}
+		defer c.rt.after(c, line)
+	}
 	t := strings.Fields(line)
 	a := kv(t)
 	name := t[1]
